@@ -45,6 +45,18 @@ class HarnessError(Exception):
     """Divergence / misuse inside the harness itself -- never a property violation."""
 
 
+class Watchdog(BaseException):
+    """Failure guard: one execution (normally ~1 ms) did not return within WATCHDOG_S of real time,
+    i.e. the SUT sits in a blocking call or spins without ever reaching select()."""
+
+
+WATCHDOG_S = int(os.environ.get('VERIF_WATCHDOG_S', '120'))
+
+
+def _on_alarm(signum, frame):
+    raise Watchdog()
+
+
 def _ino(fd):
     try:
         return os.fstat(fd).st_ino
@@ -686,6 +698,7 @@ class WorldImpl(World):
         self.no_quiescence = False
         self.stuck = False
         self.died = False
+        self.hung = False
         self.run_exc = None
         self.executor = None
         self.hooks = []            # callables(world) run each turn before peers (scenario-specific)
@@ -992,12 +1005,24 @@ class WorldImpl(World):
                 self.clients.append(Client(self, i, c['script'], c.get('start_turn', 0), c.get('read_limit'),
                                            c.get('send_on_connect'), c.get('preclose', False)))
             self.in_env = False
+            import signal
+            use_alarm = threading.current_thread() is threading.main_thread()
+            if use_alarm:
+                old_handler = signal.signal(signal.SIGALRM, _on_alarm)
+                signal.alarm(WATCHDOG_S)
             try:
                 self._run_mode()
             except KeyboardInterrupt:
                 pass
+            except Watchdog:
+                self.run_exc = 'Watchdog: execution did not return within %d s (SUT blocked or spinning)' % WATCHDOG_S
+                self.hung = True
             except BaseException as e:  # noqa
                 self.run_exc = '%s: %s' % (type(e).__name__, e)
+            finally:
+                if use_alarm:
+                    signal.alarm(0)
+                    signal.signal(signal.SIGALRM, old_handler)
             if not self.stop_requested:
                 self.died = True
             self.in_env = True
@@ -1040,6 +1065,10 @@ class WorldImpl(World):
             c.sut_sock = b
             self.register_sut(b, c.name)
             self.log(c.name, 'connect')
+            if c.send_on_connect:
+                c._send(c.send_on_connect)
+            if c.preclose:
+                c.do_action(('shutdown_wr',))
             self.in_env = False
             work = self.flags.work_klass(self.flags.work_klass.create(b, c.addr), flags=self.flags,
                                          event_queue=None, upstream_conn_pool=None)
